@@ -161,7 +161,9 @@ SPEC = dict(
 META = dict(
     technique="Lean 4 theorems over an executable model of parser.go (all token lists) + channel transition system + differential correspondence with parser.Parse and goroutine accounting",
     level_text=("Proof on the model parser for every token list: result is a tree xor an error, never a nil dereference; an error has one of the six kinds and the position of an input "
-                "token or is the unpositioned Unexpected end (error_position_from_input; known finding); a returned tree is "
+                "token or is the unpositioned Unexpected end (error_position_from_input; known finding), the token is never a comment and fits the kind (error_token_per_kind), "
+                "and in SOURCE positions: true line, true column up to C18's hash-comment-column, first character of a token of the text (error_position_in_source, composed with C18); "
+                "the printer model's visit never takes its nil-child branch on a returned tree (printer_never_hits_nil_child); a returned tree is "
                 "WellFormed and strictly well-formed (parse_wellformed, parse_wellformed_strict: no nil child, known node names, operands carry tokens, per-kind child counts/kinds) "
                 "and therefore walkable by the transcribed consumer census (wellformed_walkable); the model's grammar table equals the extracted astNodeMap (table_matches_source); a fuel bound linear in the token "
                 "count is never exhausted; in the channel model selected by the extracted synchronisation skeleton (source_selects_sync) no helper exists and the lexer "
